@@ -79,3 +79,12 @@ Example C06_shutdown_completes :
   option_map (fun s => (dcont s, lock s, deadlocked s, finished s, queue s, dbound s)) (run init tr_shutdown)
   = Some ([], None, false, true, [QStop], 0%nat).
 Proof. vm_compute. reflexivity. Qed.
+
+(* The statement is FALSE of the pinned start() (finding F16, repaired in /repo by 65dd668): in the model of
+   the pinned code (init_of false) a second start() racing with stop() makes stop() raise before it puts
+   the stop marker; the dispatcher waits in get() forever and a later observer.join() is stuck. *)
+Theorem C06_no_deadlock_refuted_pinned : exists s, reachable_pinned s /\ deadlocked s = true /\ dstop s = true /\
+  cont s A1 = [IJoinDisp; IRet CJoin] /\ dcont s = [DGet] /\ queue s = [] /\
+  In (GRet A1 CStop true) (glog s).
+Proof. exact pinned_deadlock. Qed.
+Print Assumptions C06_no_deadlock_refuted_pinned.
